@@ -1,6 +1,7 @@
 import MuduoVerif.Proofs.ConnFlow
 import MuduoVerif.Proofs.ConnLifeTrace
 import MuduoVerif.Proofs.ConnProgress
+import MuduoVerif.Proofs.ConnSkelTie
 /-!
 # C03 — shutdown() flushes everything before FIN; forceClose() closes at once, safely
 
@@ -166,5 +167,28 @@ theorem forceClose_noop (c : Conn) (f : Bool) (h : c.st = .kDisconnected) : act 
 theorem forceCloseInLoop_noop (c : Conn) (ha : c.alive = true) (h : c.st = .kDisconnected) :
     runTask c .forceCloseInLoop = c := by
   simp [runTask, ha, forceCloseInLoopActs, h]
+
+/-- T1, statement order: in every `TcpConnection` member function the model implements (and in
+`Channel::handleEventWithGuard`) the source performs the same significant actions - state stores, channel
+operations, callbacks, hand-offs to the loop, member calls, system calls, buffer operations - in the same order
+and under the same nesting of the generated guards as `Model/Conn.lean` (`Model/ConnSkelDecl.lean`); re-extracted
+from /repo on every run (`Generated/ConnSkel.lean`), proved in `Proofs/ConnSkelTie.lean` -/
+theorem statement_order_tied :
+    Gen.ConnSkel.sendInLoop = ConnSkel.Decl.sendInLoop ∧
+    Gen.ConnSkel.shutdown = ConnSkel.Decl.shutdown ∧
+    Gen.ConnSkel.shutdownInLoop = ConnSkel.Decl.shutdownInLoop ∧
+    Gen.ConnSkel.forceClose = ConnSkel.Decl.forceClose ∧
+    Gen.ConnSkel.forceCloseWithDelay = ConnSkel.Decl.forceCloseWithDelay ∧
+    Gen.ConnSkel.forceCloseInLoop = ConnSkel.Decl.forceCloseInLoop ∧
+    Gen.ConnSkel.startReadInLoop = ConnSkel.Decl.startReadInLoop ∧
+    Gen.ConnSkel.stopReadInLoop = ConnSkel.Decl.stopReadInLoop ∧
+    Gen.ConnSkel.connectEstablished = ConnSkel.Decl.connectEstablished ∧
+    Gen.ConnSkel.connectDestroyed = ConnSkel.Decl.connectDestroyed ∧
+    Gen.ConnSkel.handleRead = ConnSkel.Decl.handleRead ∧
+    Gen.ConnSkel.handleWrite = ConnSkel.Decl.handleWrite ∧
+    Gen.ConnSkel.handleClose = ConnSkel.Decl.handleClose ∧
+    Gen.ConnSkel.handleError = ConnSkel.Decl.handleError ∧
+    Gen.ConnSkel.handleEventWithGuard = ConnSkel.Decl.handleEventWithGuard :=
+  ConnSkel.skeletons_agree
 
 end MuduoVerif.C03
